@@ -1,4 +1,148 @@
-/- C04: property theorems (in progress). -/
-import Pycel.Model.Needed
+/-
+  C04 — Declared precedents cover every cell a formula actually reads.
+
+  Statement (properties.jsonl): "Whenever evaluating a formula reads the value of another cell or range, that cell or
+  range is among the formula's declared precedents and the dependency graph has the corresponding
+  precedent->dependant edge (directly or through a range node that contains the cell). Consequently the ancestors of a
+  cell in the exported graph are a superset of the cells that can influence it, for all formulas with written
+  (non-computed) references."
+
+  Model: Pycel/Model/Needed.lean (emission of the reference forms `emitN`, the scanner `scan`, the run-time trace
+  `evalT`/`reads` for an arbitrary environment and arbitrary, possibly failing, operator / library semantics, the
+  graph construction `genGraph`), over C02's formula tree / Python tokens and C11's address algebra.
+  Generated/RefMeta.lean (the `func_*` emission handlers, ADDR_FUNCS_NAMES, ref_params of ROW/COLUMN/OFFSET) is
+  regenerated from the live code on every run; the `*_spec` theorems below are re-proved against it.
+-/
+import Pycel.Lemmas.Needed
 namespace Pycel.Needed
+open Pycel Pycel.Formula
+
+/-! ### the tables the model dispatches on -/
+
+/-- the special emission handlers of FunctionNode are exactly the ones `emitN` models (`map` is the attribute
+    `func_map`, a dict: `=MAP(...)` fails to compile).  A new `func_*` handler is a new emission shape. -/
+theorem handlers_spec : Gen.funcHandlers =
+    [nmArray, nmArrayRow, nmColumn, ['f', 'a', 'l', 's', 'e'], nmIndirect, ['m', 'a', 'p'], nmOffset, nmPi, nmRow,
+     nmSubtotal, ['t', 'r', 'u', 'e']] := by decide
+
+/-- the scanner looks for exactly the three call names the emitter uses for references -/
+theorem addr_funcs_spec : Gen.scanNames = [nmR, nmC, nmREF] ∧ Gen.scanNames = Gen.addrFuncs := by decide
+
+/-- ROW / COLUMN / OFFSET keep their parameter 0 as a reference (no `_C_`/`_R_` call is made for it) -/
+theorem ref_params_spec : Gen.refParams = [(nmRow, 0), (nmColumn, 0), (nmOffset, 0)] := by decide
+
+/-! ### "that cell or range is among the formula's declared precedents" — the scanner finds what the emitter wrote -/
+
+/-- the call pattern survives any surrounding context: a match in `xs` is a match in `pre ++ xs ++ post` -/
+theorem C04_scan_context (pre xs post : List PyTok) (a : Str) (h : a ∈ scan xs) : a ∈ scan (pre ++ xs ++ post) := by
+  rw [List.append_assoc]
+  exact scan_prefix pre _ a (scan_suffix xs post a h)
+
+/-- every reference emitted for a written reference (plain, `$`, sheet-qualified, range, multi-colon, defined name
+    with one or several areas, operands of intersections and `,` unions, the argument of ROW / COLUMN and their
+    implicit own cell, at any nesting depth inside operators and functions) is found by the scanner -/
+theorem C04_scan_complete (cx : RefCtx) (e : Expr) (hw : written cx e = true) (a : Str)
+    (h : a ∈ refsEmitted cx e) : a ∈ scan (emit cx e) :=
+  ((hitE cx a e (Or.inr hw) h).1 .root).scan
+
+/-! ### "Whenever evaluating a formula reads the value of another cell or range, that cell or range is among the
+    formula's declared precedents" -/
+
+/-- for every formula with written references, every environment and every (possibly failing) operator / library
+    semantics: each address passed to `_C_` / `_R_` at run time — the computed argument of the intersection form
+    included — is contained, as a set of cells, in a declared precedent -/
+theorem C04_reads_covered {V : Type} (cx : RefCtx) (sem : Sem V) (e : Expr) (hw : written cx e = true) :
+    ∀ r ∈ reads cx sem e, ∃ d ∈ scan (emit cx e), ∀ c, r.Covers c → CoversStr d c := by
+  intro r hr
+  obtain ⟨d, hd, hc⟩ := readsE cx sem e (Or.inr hw) r hr
+  exact ⟨d, C04_scan_complete cx e hw d hd, hc⟩
+
+/-! ### "and the dependency graph has the corresponding precedent->dependant edge (directly or through a range node
+    that contains the cell)" -/
+
+/-- after `_gen_graph(seed)` has emptied its work list, every built node with precedents (formula cell, range node,
+    reference cell of an unbounded range) has the edge `d → i` for each of its needed addresses `d` -/
+theorem C04_edges {N : Type} [DecidableEq N] (bk : Book N) (fuel n : Nat) (seed : N)
+    (hdone : (genGraph bk fuel n seed).todos = []) :
+    ∀ i ∈ (genGraph bk fuel n seed).cellMap, bk.hasPrec i = true →
+      ∀ d ∈ bk.needed i, (d, i) ∈ (genGraph bk fuel n seed).edges := by
+  intro i hi hp
+  rcases genGraph_inv bk fuel n seed i hi hp with h | h | h
+  · exact absurd h id
+  · rw [hdone] at h; simp at h
+  · exact h
+
+/-- `_CellRange.needed_addresses`: a range node has an edge from each of its member cells -/
+theorem C04_range_members {N : Type} [DecidableEq N] (bk : Book N) (fuel n : Nat) (seed : N)
+    (hdone : (genGraph bk fuel n seed).todos = []) (rng : N) (members : List N)
+    (hr : rng ∈ (genGraph bk fuel n seed).cellMap) (hp : bk.hasPrec rng = true) (hm : bk.needed rng = members) :
+    ∀ m ∈ members, (m, rng) ∈ (genGraph bk fuel n seed).edges := by
+  intro m hmem
+  exact C04_edges bk fuel n seed hdone rng hr hp m (by rw [hm]; exact hmem)
+
+/-- a cell that is a declared precedent of `i`, or a member of a range node that is, is an ancestor of `i` -/
+theorem C04_ancestors {N : Type} (edges : List (N × N)) (needed : N → List N) (hasPrec : N → Bool)
+    (hedges : ∀ i, hasPrec i = true → ∀ d ∈ needed i, (d, i) ∈ edges)
+    (i : N) (hi : hasPrec i = true) (d : N) (hd : d ∈ needed i) (c : N)
+    (hc : c = d ∨ (hasPrec d = true ∧ c ∈ needed d)) : Reach edges c i := by
+  rcases hc with rfl | ⟨hpd, hcd⟩
+  · exact .step (hedges i hi c hd) (.refl i)
+  · exact .step (hedges d hpd c hcd) (.step (hedges i hi d hd) (.refl i))
+
+/-- `c` can influence `i`: `i` reads `c` at run time, or reads a cell that `c` can influence -/
+inductive Influences {N : Type} (readCells : N → List N) : N → N → Prop where
+  | direct {c i : N} : c ∈ readCells i → Influences readCells c i
+  | trans {c j i : N} : Influences readCells c j → j ∈ readCells i → Influences readCells c i
+
+/-- "Consequently the ancestors of a cell in the exported graph are a superset of the cells that can influence it":
+    when every cell a node reads lies in a declared precedent (C04_reads_covered: the precedent is the cell itself or
+    a range node whose members include it) and the built graph has the edges (C04_edges), every cell that can
+    influence `i` is an ancestor of `i` -/
+theorem C04_influence {N : Type} (edges : List (N × N)) (needed : N → List N) (hasPrec : N → Bool)
+    (readCells : N → List N)
+    (hedges : ∀ i, hasPrec i = true → ∀ d ∈ needed i, (d, i) ∈ edges)
+    (hreader : ∀ i c, c ∈ readCells i → hasPrec i = true)
+    (hcov : ∀ i c, c ∈ readCells i → ∃ d ∈ needed i, c = d ∨ (hasPrec d = true ∧ c ∈ needed d))
+    (c i : N) (h : Influences readCells c i) : Reach edges c i := by
+  induction h with
+  | direct hc =>
+    obtain ⟨d, hd, hcd⟩ := hcov _ _ hc
+    exact C04_ancestors edges needed hasPrec hedges _ (hreader _ _ hc) d hd _ hcd
+  | trans _ hj ih =>
+    obtain ⟨d, hd, hcd⟩ := hcov _ _ hj
+    exact reach_trans ih (C04_ancestors edges needed hasPrec hedges _ (hreader _ _ hj) d hd _ hcd)
+
+/-! ### the `written` predicate: decidable, satisfiable, and excluding the computed forms -/
+
+def cx0 : RefCtx := ⟨"Sheet1".toList, 5, 6, [("nm".toList ++ ['_', 'x'], [("$B$2".toList, "Sheet1".toList)])]⟩
+
+/-- `=SUM(A1:B2 B2:C3, Sheet2!$A$1, nm_x) + ROW(A1:B2:C3)` -/
+def e0 : Expr :=
+  .bin .add
+    (.func "SUM".toList [.bin .space (.operand (.range "A1:B2".toList)) (.operand (.range "B2:C3".toList)),
+      .operand (.range "Sheet2!$A$1".toList), .operand (.range "nm_x".toList)])
+    (.func "ROW".toList [.operand (.range "A1:B2:C3".toList)])
+
+/-- the predicate is satisfiable by a formula with an intersection, a sheet-qualified absolute reference, a defined
+    name and a multi-colon range under ROW; its trace holds the computed intersection `Sheet1!B2` -/
+theorem written_satisfiable :
+    written cx0 e0 = true ∧ (reads cx0 (V := Unit) ⟨fun _ => (), fun _ => (), fun _ => (), fun _ => (),
+      fun _ => some (), fun _ => some (), fun _ _ _ => some (), fun _ => (), fun _ _ => some (),
+      fun _ _ => some ()⟩ e0).length = 3 ∧
+    (scan (emit cx0 e0)).length = 5 := by decide +kernel
+
+/-- OFFSET, INDIRECT (any spelling that `FunctionNode.emit` maps to these handlers) and the `:` operator on a computed
+    operand are outside the written references -/
+theorem computed_not_written (cx : RefCtx) (l r : Expr) (name : Str) (args : List Expr)
+    (h : pyFuncBase name = nmOffset ∨ pyFuncBase name = nmIndirect) :
+    written cx (.bin .colon l r) = false ∧ written cx (.func name args) = false := by
+  refine ⟨by simp [written], ?_⟩
+  simp only [written]
+  rw [if_pos]
+  rcases h with h | h
+  · exact Or.inl h
+  · exact Or.inr (Or.inl h)
+
+example : pyFuncBase "OFFSET".toList = nmOffset ∧ pyFuncBase "Indirect".toList = nmIndirect := by decide
+
 end Pycel.Needed
